@@ -248,6 +248,8 @@ class ECDH(object):
         :param public_key_str: public key in bytes string format
         :type public_key_str: :term:`bytes-like object`
         """
+        if not self.curve:
+            raise NoCurveError("Curve must be set prior to key load.")
         return self.load_received_public_key(
             VerifyingKey.from_string(public_key_str, self.curve)
         )
